@@ -26,8 +26,31 @@ def _mods():
     return _ENC
 
 
+class _SlowConstructor(Exception):
+    pass
+
+
+def _alarm(_s, _f):
+    raise _SlowConstructor
+
+
 def make_instance(W: int, H: int, items: list, name: str = "v"):
-    return _mods()["Instance"](name, int(W), int(H), [list(map(int, t)) for t in items])
+    """Build a real Instance.  The constructor's lower-bound routine is O(short bin side x squares); for very
+    large bins it is guarded by a wall clock and the instance is skipped (ValueError) if it takes more than 120 s -
+    a slow constructor must neither hang a check nor be mistaken for a verdict."""
+    import signal
+    big_bin = max(int(W), int(H)) > 100_000
+    if big_bin:
+        old = signal.signal(signal.SIGALRM, _alarm)
+        signal.alarm(120)
+    try:
+        return _mods()["Instance"](name, int(W), int(H), [list(map(int, t)) for t in items])
+    except _SlowConstructor:
+        raise ValueError(f"instance constructor took more than 120 s for a {W}x{H} bin: skipped") from None
+    finally:
+        if big_bin:
+            signal.alarm(0)
+            signal.signal(signal.SIGALRM, old)
 
 
 def inst_record(inst) -> dict:
